@@ -1141,6 +1141,21 @@ def item(t, i):
     return ('item', t, i)
 
 
+def _arrayish(t):
+    """an index that is certainly not a scalar: a selection by a mask or a slice, a comparison, a display, an array-valued call.
+    a[rows, j] pairs the rows with j; a[rows][j] takes the j-th of the selected rows - not the same thing"""
+    if t[0] in ('cmp', 'list', 'tuple', 'comp'):
+        return True
+    if t[0] == 'sub' and t[2][0] in ('cmp', 'slice'):
+        return True
+    if t[0] == 'call' and t[1][0] == 'g' and t[1][1] in ('numpy.where', 'numpy.nonzero', 'numpy.array', 'numpy.asarray', 'numpy.arange',
+                                                         'numpy.argsort', 'numpy.flatnonzero', 'builtins.range', 'builtins.list'):
+        return True
+    if t[0] == 'sub' and t[1][0] == 'call' and t[1][1][0] == 'g' and t[1][1][1] in ('numpy.where', 'numpy.nonzero'):
+        return True
+    return False
+
+
 _TUPLE_RETURNING = ('calculus_division', 'path_matching', 'connect_coding_graph', 'remove_nasty_arc', 'repair_dna')
 
 
@@ -1210,7 +1225,7 @@ def subscript(base, idx):
     if idx[0] == 'tuple' and len(idx) == 3 and idx[1][0] != 'slice' and idx[2] == ('slice', ('c', None), ('c', None), ('c', None)):
         return subscript(base, idx[1])
     # a[i, j] with scalar (non-slice) i  ==  a[i][j]
-    if idx[0] == 'tuple' and len(idx) == 3 and idx[1][0] != 'slice':
+    if idx[0] == 'tuple' and len(idx) == 3 and idx[1][0] != 'slice' and not _arrayish(idx[1]):
         return subscript(subscript(base, idx[1]), idx[2])
     if base[0] == 'c' and isinstance(base[1], str) and idx[0] == 'c' and isinstance(idx[1], int):
         try:
